@@ -359,7 +359,7 @@ def collect(tree, spec, path, index):
 def run_mutants(check):
     rejected = []
     for m in ('nowalk', 'noforgive', 'lazydup'):
-        res = vlib.run_tlc('MC_C05', cfg='MC_C05_' + m, constants=dict(MaxDepth=2, SecondDepth=0, MaxLeaves=4))
+        res = vlib.run_tlc('MC_C05', cfg='MC_C05_' + m, constants=dict(MaxDepth=2, SecondDepth=0, MaxLeaves=4, Rich='TRUE'))
         if not res['violated']:
             raise vlib.MachineryError('mechanism mutant %s not rejected by the C05 laws' % m)
         rejected.append('%s -> %s' % (m, res['violated']))
@@ -368,9 +368,15 @@ def run_mutants(check):
 
 def main(tier, seed):
     check = vlib.Check(PROP, tier, seed)
-    consts = {'quick': dict(MaxDepth=2, SecondDepth=0, MaxLeaves=4), 'thorough': dict(MaxDepth=2, SecondDepth=1, MaxLeaves=5)}[tier]
-    res, results = vlib.map_states('MC_C05', worker, constants=consts)
-    check.add_tlc(res, 'MC_C05 %s' % consts)
+    runs = {'quick': [dict(MaxDepth=2, SecondDepth=0, MaxLeaves=4, Rich='TRUE')],
+            'thorough': [dict(MaxDepth=2, SecondDepth=0, MaxLeaves=5, Rich='TRUE'),
+                         dict(MaxDepth=2, SecondDepth=1, MaxLeaves=4, Rich='FALSE')]}[tier]
+    results = []
+    for consts in runs:
+        res, rs = vlib.map_states('MC_C05', worker, constants=consts)
+        check.add_tlc(res, 'MC_C05 %s' % consts)
+        results += rs
+    consts = runs
     ndrift = 0
     for r in results:
         check.cov['evaluations'] += r['n']
